@@ -54,6 +54,19 @@ def run(chk):
         chk.violation("fact %s asked as %r: %s" % (rec.get("i"), rec.get("text"), ",".join(m["problems"])),
                       {"kind": "fact", "words": rec.get("words"), "text": rec.get("text"), "returned_tokens": rec.get("tokens"), "why": rec.get("why"),
                        "what": "asking for exactly the words of a shipped constant does not return a completely decoded constant carrying all of them"})
+    # the same through the index as every start of the tool but the first has it: built on disk by one start, opened by the next
+    inp2, out2 = os.path.join(w, "phrases-reopened.ndjson"), os.path.join(w, "rec-reopened.ndjson")
+    rows2 = rows if chk.tier == "thorough" else rows[chk.seed % 3::3]
+    vlib.write_ndjson(inp2, rows2)
+    vlib.conform(["c16-record", "--in", inp2, "--out", out2, "--repo", vlib.REPO, "--session", "reopened"], timeout=3600)
+    res2 = lang.validate(chk, out2, "c16-val-reopened", module="Trace_Facts", label="facts by their own words, index reopened from disk", chunk=800)
+    chk.evals(res2.records)
+    chk.cov["phrases_asked_of_the_reopened_index"] = len(rows2)
+    for m in res2.mismatches:
+        rec = m["rec"] or {}
+        chk.violation("fact %s asked of the reopened index as %r: %s" % (rec.get("i"), rec.get("text"), ",".join(m["problems"])),
+                      {"kind": "fact", "session": "reopened", "words": rec.get("words"), "text": rec.get("text"), "returned_tokens": rec.get("tokens"), "why": rec.get("why"),
+                       "what": "asking the on-disk index, opened again by a second start, for exactly the words of a shipped constant does not return that constant"})
     recs = vlib.read_ndjson(out)
     for r in recs:
         if len(r["words"]) >= 2:
@@ -67,7 +80,7 @@ def run(chk):
     if res.judged < len(facts) // 2:
         raise ToolError("the specification finds only %d of %d phrases typable" % (res.judged, len(rows)))
     chk.cov["exhaustive"] = True
-    chk.cov["rule"] = ("exhaustive over the shipped data: every one of the %d constants, by its own words in stored order, rotated and reversed%s; one evaluation "
+    chk.cov["rule"] = ("exhaustive over the shipped data: every one of the %d constants, by its own words in stored order, rotated and reversed%s, asked of a database built in memory and (a third of the phrases; thorough: all) of the on-disk index opened again by a second start; one evaluation "
                        "= one phrase; phrases the specification cannot type (words with `/`, digits first, non-word characters) are out of domain; "
                        "non-trivial = a phrase of >= 2 words" % (len(facts), " and every permutation up to 4 words" if p["perms"] > 1 else ""))
     for r in recs[:2]:
@@ -81,7 +94,7 @@ def replay(chk, case):
     w = vlib.workdir("c16-replay")
     inp, out = os.path.join(w, "phrases.ndjson"), os.path.join(w, "rec.ndjson")
     vlib.write_ndjson(inp, [{"i": 0, "words": case["words"]}])
-    vlib.conform(["c16-record", "--in", inp, "--out", out, "--repo", vlib.REPO])
+    vlib.conform(["c16-record", "--in", inp, "--out", out, "--repo", vlib.REPO] + (["--session", "reopened"] if case.get("session") == "reopened" else []))
     res = lang.validate(chk, out, "c16-replay-val", module="Trace_Facts", label="replay")
     for m in res.mismatches:
         chk.violation("replayed %r: %s" % (case["text"], m["problems"]), case)
